@@ -125,7 +125,7 @@ def _opnorm(shape, axn, inverse, norm):
 
 def _call(r, key, fn):
     try:
-        return True, fn()
+        return True, r.twice(key, fn)
     except Exception as e:  # every generated input is inside the property's domain
         r.fail(key + ":raises", "%s: %s" % (type(e).__name__, e))
         return False, None
